@@ -99,12 +99,22 @@ func c15Stream(rng *vRNG, c detConfig, n int, level int) []detFrame {
 }
 
 type c15Sink struct {
-	starts []sinkOp
+	starts   []sinkOp
+	stopFail func() bool
+	open     bool
 }
 
-func (s *c15Sink) StopRecording() error { return nil }
+func (s *c15Sink) StopRecording() error {
+	wasOpen := s.open
+	s.open = false
+	if wasOpen && s.stopFail != nil && s.stopFail() {
+		return fmt.Errorf("scripted: stop failed")
+	}
+	return nil
+}
 func (s *c15Sink) StartRecording(bg *cptvframe.Frame, th uint16) error {
 	s.starts = append(s.starts, sinkOp{Op: opStart, Thresh: th, Bg: bg.CreateCopy()})
+	s.open = true
 	return nil
 }
 func (s *c15Sink) WriteFrame(f *cptvframe.Frame) error { return nil }
@@ -166,6 +176,13 @@ func TestVerif_C15(t *testing.T) {
 		badAt := -1
 		c.Case(idx, func() interface{} { return detStreamDesc(cfg, stream, badAt)() }, func() {
 			sink := &c15Sink{}
+			if idx%4 == 0 {
+				// a failing StopRecording (at a reset, at the end of a recording) must not keep the
+				// background from being re-seeded
+				frng := vNewRNG(uint64(idx), 15)
+				sink.stopFail = func() bool { return frng.Chance(70) }
+				c.Count("streams_with_failing_stops", 1)
+			}
 			flag := &motionFlag{}
 			mc := cfg.motionConfig()
 			rc := &recorder.RecorderConfig{MinSecs: 1, MaxSecs: 2, PreviewSecs: preview, Window: window.Window{NoWindow: true}}
